@@ -2,6 +2,7 @@ package rules
 
 import (
 	"fmt"
+	"go/constant"
 	"go/token"
 	"sort"
 	"strings"
@@ -53,6 +54,94 @@ func c11OrphanSession(c *Ctx) {
 	type world struct {
 		state, proto string // proto "" = no transport yet
 	}
+	// evalVal evaluates a boolean SSA value in world w: comparisons of the session state, of the
+	// transport (nil / protocol) and of len(conns) with constants, negation, short-circuit phis,
+	// and calls of predicate helpers of the package (evaluated on their own flow graph).
+	var evalVal func(w world, v ssa.Value, came map[*ssa.BasicBlock]*ssa.BasicBlock, depth int) (val, known, trap bool)
+	evalVal = func(w world, v ssa.Value, came map[*ssa.BasicBlock]*ssa.BasicBlock, depth int) (bool, bool, bool) {
+		switch x := v.(type) {
+		case *ssa.Const:
+			if x.Value != nil && x.Value.Kind() == constant.Bool {
+				return constant.BoolVal(x.Value), true, false
+			}
+		case *ssa.UnOp:
+			if x.Op == token.NOT {
+				val, known, trap := evalVal(w, x.X, came, depth)
+				return !val, known, trap
+			}
+		case *ssa.Phi:
+			if came != nil {
+				if pred, ok := came[x.Block()]; ok {
+					for i, pb := range x.Block().Preds {
+						if pb == pred {
+							return evalVal(w, x.Edges[i], came, depth)
+						}
+					}
+				}
+			}
+		case *ssa.BinOp:
+			if x.Op != token.EQL && x.Op != token.NEQ {
+				return false, false, false
+			}
+			bo := x
+			pathX := core.PathOf(bo.X)
+			switch {
+			case isNilConst(bo.Y) && strings.HasSuffix(pathX, ".setuppedTransport"):
+				return (w.proto == "") == (bo.Op == token.EQL), true, false
+			case strings.HasSuffix(pathX, ".state"):
+				if k, ok := bo.Y.(*ssa.Const); ok && k.Value != nil {
+					return (states[core.ConstKey(k)] == w.state) == (bo.Op == token.EQL), true, false
+				}
+			case strings.HasSuffix(pathX, ".setuppedTransport.Protocol"):
+				if k, ok := bo.Y.(*ssa.Const); ok && k.Value != nil {
+					if w.proto == "" {
+						return false, false, true
+					}
+					return (protos[core.ConstKey(k)] == w.proto) == (bo.Op == token.EQL), true, false
+				}
+			default:
+				// len(ss.conns) == 0
+				if call, ok := bo.X.(*ssa.Call); ok {
+					if bi, ok := call.Call.Value.(*ssa.Builtin); ok && bi.Name() == "len" && strings.HasSuffix(core.PathOf(call.Call.Args[0]), ".conns") {
+						if k, ok := bo.Y.(*ssa.Const); ok && k.Int64() == 0 {
+							return bo.Op == token.EQL, true, false // the world has no connection left
+						}
+					}
+				}
+			}
+		case *ssa.Call:
+			h := x.Call.StaticCallee()
+			if h == nil || depth > 2 || h.Pkg != fn.Pkg || h.Blocks == nil || h.Signature.Results().Len() != 1 || len(h.Params) != 1 {
+				return false, false, false
+			}
+			// a predicate method of the session: walk its flow graph in this world
+			cm := map[*ssa.BasicBlock]*ssa.BasicBlock{}
+			b := h.Blocks[0]
+			for steps := 0; steps < 200; steps++ {
+				switch last := b.Instrs[len(b.Instrs)-1].(type) {
+				case *ssa.Return:
+					return evalVal(w, last.Results[0], cm, depth+1)
+				case *ssa.Jump:
+					cm[b.Succs[0]] = b
+					b = b.Succs[0]
+				case *ssa.If:
+					val, known, trap := evalVal(w, last.Cond, cm, depth+1)
+					if trap || !known {
+						return false, false, trap
+					}
+					nx := b.Succs[1]
+					if val {
+						nx = b.Succs[0]
+					}
+					cm[nx] = b
+					b = nx
+				default:
+					return false, false, false
+				}
+			}
+		}
+		return false, false, false
+	}
 	eval := func(w world) (closed, undecided bool) {
 		seen := map[*ssa.BasicBlock]bool{}
 		var walk func(b *ssa.BasicBlock, from int) (bool, bool)
@@ -84,33 +173,9 @@ func c11OrphanSession(c *Ctx) {
 				}
 				return cl, un
 			}
-			val, known := false, false
-			if bo, ok := iff.Cond.(*ssa.BinOp); ok && (bo.Op == token.EQL || bo.Op == token.NEQ) {
-				pathX := core.PathOf(bo.X)
-				switch {
-				case isNilConst(bo.Y) && strings.HasSuffix(pathX, ".setuppedTransport"):
-					val, known = (w.proto == "") == (bo.Op == token.EQL), true
-				case strings.HasSuffix(pathX, ".state"):
-					if k, ok := bo.Y.(*ssa.Const); ok && k.Value != nil {
-						val, known = (states[core.ConstKey(k)] == w.state) == (bo.Op == token.EQL), true
-					}
-				case strings.HasSuffix(pathX, ".setuppedTransport.Protocol"):
-					if k, ok := bo.Y.(*ssa.Const); ok && k.Value != nil {
-						if w.proto == "" {
-							return false, true // nil dereference in this world: not decided here
-						}
-						val, known = (protos[core.ConstKey(k)] == w.proto) == (bo.Op == token.EQL), true
-					}
-				default:
-					// len(ss.conns) == 0
-					if call, ok := bo.X.(*ssa.Call); ok {
-						if bi, ok := call.Call.Value.(*ssa.Builtin); ok && bi.Name() == "len" && strings.HasSuffix(core.PathOf(call.Call.Args[0]), ".conns") {
-							if k, ok := bo.Y.(*ssa.Const); ok && k.Int64() == 0 {
-								val, known = bo.Op == token.EQL, true // the world has no connection left
-							}
-						}
-					}
-				}
+			val, known, trap := evalVal(w, iff.Cond, nil, 0)
+			if trap {
+				return false, true // nil dereference in this world: not decided here
 			}
 			if known {
 				if val {
